@@ -191,7 +191,9 @@ class TransferMonitor:
         self.loaded: set[int] = set()
         self.transfers: dict[int, Any] = {}
         self.listener = _M1Listener(self)
-        self.counters = {'m1_edges': 0, 'm2_ops': 0, 'm2_refused': 0, 'm2_stale_dispatch': 0, 'm2_lock_waits': 0}
+        self.counters = {'m1_edges': 0, 'm2_ops': 0, 'm2_refused': 0, 'm2_stale_dispatch': 0, 'm2_lock_waits': 0,
+                         'm2_refused_followups': 0}
+        self._refused_watch: dict[int, tuple] = {}
         self.complete_hooks: list = []     # fn(transfer) called at every COMPLETE notification
         self.edge_hooks: list = []         # fn(transfer, old, new)
 
@@ -283,6 +285,31 @@ class TransferMonitor:
         rec['t_lock'] = self.now
         rec['actual'] = transfer.state.VALUE.name
         rec['before'] = _snapshot(transfer)
+        self._check_refused_watch(transfer, rec['before'])
+
+    # what a refused request left alone stays alone until a request is accepted: the time stamps and the fail reason
+    # are only written inside state operations, so between the release of the lock by a refused operation and the
+    # next acquisition nothing may have touched them
+    _WATCHED = ('start_time', 'complete_time', 'fail_reason')
+
+    def _check_refused_watch(self, transfer, snap: dict):
+        watch = self._refused_watch.pop(id(transfer), None)
+        if watch is None:
+            return
+        self.counters['m2_refused_followups'] += 1
+        rec, then = watch
+        diff = {k: (then[k], snap[k]) for k in self._WATCHED if then[k] != snap[k]}
+        if diff:
+            self.violations.append((
+                f"refused-op-side-effect-after-return:{rec['op']}:in-{rec['actual']}:{rec['direction'].lower()}:"
+                + '+'.join(sorted(diff)),
+                {'t': self.now, 'transfer': rec['transfer'], 'refused_at': rec['t_done'], 'diff': diff}))
+
+    def final_check(self):
+        for tid in list(self._refused_watch):
+            transfer = self.transfers.get(tid)
+            if transfer is not None:
+                self._check_refused_watch(transfer, _snapshot(transfer))
 
     def op_releasing(self, rec: dict, transfer):
         rec['after'] = _snapshot(transfer)
@@ -323,10 +350,13 @@ class TransferMonitor:
                 self.violations.append((
                     f"refused-op-side-effect:{op}:in-{actual}:{direction.lower()}:" + '+'.join(sorted(diff)),
                     {'t': rec['t_done'], 'transfer': rec['transfer'], 'dispatched_on': dispatched, 'diff': diff}))
+            else:
+                self._refused_watch[id(transfer)] = (rec, {k: after[k] for k in self._WATCHED})
 
     # -- reporting ---------------------------------------------------------------
     def report(self, res: dict, prop_filter=None):
         from . import runner
+        self.final_check()
         for sig, detail in self.violations:
             runner.violation(res, sig, **detail)
         for k, v in self.counters.items():
